@@ -58,7 +58,9 @@ def item? : Sx → Option Item
   | .list [id, order, grow, shrink, basis, w, h, minW, maxW, minH, maxH, ml, mr, mt, mb,
            pl, pr, pt, pb, bl, br, bt, bb, al] => do
     pure {
-      id := ← id.nat?, order := ← order.int?, grow := ← grow.rat?, shrink := ← shrink.rat?,
+      id := ← id.nat?, order := ← order.int?,
+      -- the values as written in the style sheet go through the validator
+      grow := computedFactor (← grow.rat?) 0, shrink := computedFactor (← shrink.rat?) 1,
       basis := ← basis? basis, sWidth := ← w.len?, sHeight := ← h.len?,
       sMinW := ← minW.len?, sMaxW := ← maxW.len?, sMinH := ← minH.len?, sMaxH := ← maxH.len?,
       ml := ← ml.len?, mr := ← mr.len?, mt := ← mt.len?, mb := ← mb.len?,
